@@ -30,6 +30,7 @@ var c20Shapes = []string{
 	"xml-decl", "comment-before-root", "pi-before-root", "single-quotes", "attr-order", "tag-whitespace", "bom",
 	"default-ns-root", "root-prefix-redeclared-on-issuer",
 	"remove-InResponseTo", "remove-Destination", "empty-Destination", "empty-issuer",
+	"move-issuer-to-end", "second-issuer-at-end", "move-status-before-issuer",
 }
 
 type c20Case struct {
@@ -154,6 +155,24 @@ func c20Apply(shape string, s string) string {
 		return s[:k] + s[e:]
 	case "empty-issuer":
 		return issuerText(func(string) string { return "" })
+	case "move-issuer-to-end", "second-issuer-at-end":
+		if issStart < 0 {
+			return s
+		}
+		end := strings.LastIndex(s, "</")
+		if shape == "second-issuer-at-end" {
+			return s[:end] + evilIssuer + s[end:]
+		}
+		iss := s[issStart:issEnd]
+		return s[:issStart] + s[issEnd:end] + iss + s[end:]
+	case "move-status-before-issuer":
+		a := strings.Index(s, "<samlp:Status>")
+		b := strings.Index(s, "</samlp:Status>")
+		if a < 0 || b < 0 || issStart < 0 || a < issStart {
+			return s
+		}
+		b += len("</samlp:Status>")
+		return s[:issStart] + s[a:b] + s[issStart:a] + s[b:]
 	case "bom":
 		return "\xef\xbb\xbf" + s
 	case "default-ns-root", "root-prefix-redeclared-on-issuer":
@@ -296,7 +315,7 @@ func c20Replay(raw json.RawMessage) ([]string, string) {
 }
 
 func c20Run(r *mc.Run) {
-	r.Rule = "every document of C08's layout space (same generator and bounds) + attacker-shaped documents with an unsigned root: every combination of <=2 (quick) / <=3 (thorough) of 35 shadowing/layout shapes (namespace-prefixed and duplicated root attributes before/after the real one, two Issuers in either order, foreign-namespace / nested Issuer first, comments/CDATA/character references/whitespace/child element in Issuer, character references and raw TAB/LF/CR in an attribute value, prolog variants, quote style, attribute order, BOM, default namespace, prefix rebinding) x raw/DEFLATE x IdP issuer configured or not, for SSO Responses and signed/unsigned LogoutResponses; differential oracle; non-trivial = full validation accepted, so the two decoders were compared; distinct = distinct case"
+	r.Rule = "every document of C08's layout space (same generator and bounds) + attacker-shaped documents with an unsigned root: every combination of <=2 (quick) / <=3 (thorough) of 38 shadowing/layout shapes (namespace-prefixed and duplicated root attributes before/after the real one, two Issuers in either order, foreign-namespace / nested Issuer first, comments/CDATA/character references/whitespace/child element in Issuer, character references and raw TAB/LF/CR in an attribute value, prolog variants, quote style, attribute order, BOM, default namespace, prefix rebinding) x raw/DEFLATE x IdP issuer configured or not, for SSO Responses and signed/unsigned LogoutResponses; differential oracle; non-trivial = full validation accepted, so the two decoders were compared; distinct = distinct case"
 	var cases []c20Case
 	for _, g := range c08Cases(r) {
 		g := g
